@@ -223,11 +223,13 @@ impl<T> Clone for Receiver<T> {
 impl<T> Drop for Receiver<T> {
     fn drop(&mut self) {
         if self.chan.receivers.fetch_sub(1, Ordering::SeqCst) == 1 {
-            if sim::current_task().is_some() && !std::thread::panicking() {
+            let live = sim::current_task().is_some() && !std::thread::panicking();
+            if live {
                 self.chan.slots.close();
             } else {
                 self.chan.slots.close_no_scheduling_point();
             }
+            self.chan.core.0.receiver_gone(live);
             // crossbeam discards queued messages once the last receiver is gone
             let drained: Vec<T> = self.chan.queue.lock().unwrap().drain(..).collect();
             let c = &self.chan.core.0;
